@@ -67,7 +67,7 @@ class FloatSchema(Schema[FloatProps]):
         if self.props.min is not Nil:
             raise make_already_declared_error(self)
 
-        if (self.props.value is not Nil) and (value > self.props.value):
+        if (self.props.value is not Nil) and not (value <= self.props.value):
             raise make_incorrect_min_error(self, self.props.value, value)
 
         return self.__class__(self.props.update(min=value))
@@ -79,7 +79,7 @@ class FloatSchema(Schema[FloatProps]):
         if self.props.max is not Nil:
             raise make_already_declared_error(self)
 
-        if (self.props.value is not Nil) and (value < self.props.value):
+        if (self.props.value is not Nil) and not (value >= self.props.value):
             raise make_incorrect_max_error(self, self.props.value, value)
 
         return self.__class__(self.props.update(max=value))
